@@ -36,8 +36,9 @@ def main(argv):
                 res = {}
                 for upto in (uptos or [None]):
                     try:
-                        r = P.evaluate(case, da, upto=upto)
-                        v = r.compute(scheduler="sync")
+                        with P.config_ctx(case):
+                            r = P.evaluate(case, da, upto=upto)
+                            v = r.compute(scheduler="sync")
                         res[upto] = {"value": np.asarray(v), "dtype": str(r.dtype), "shape": tuple(r.shape),
                                      "chunks": tuple(tuple(c) for c in r.chunks)}
                     except NotImplementedError as ex:
